@@ -136,9 +136,10 @@ Proof. exact witness_script_session. Qed.
 
 (* the whole tapscript session (P2TR script path): the BIP341 commitment rule of C05 decides whether the script runs at all; when it holds the
    session is ONE evaluation of the revealed script with the leaf hash installed in the execution data, and when it does not the session ends with
-   an error before any operation ran (environment untouched). Control block of any legal size 33+32m, fuel bound explicit. *)
+   an error before any operation ran (environment untouched). Control block of any legal size 33+32m, ANY script - the empty one included: a
+   session with a pending commitment check never starts out finished (F54) -, fuel bound explicit. *)
 Theorem C03_tapscript_session_is_commitment_then_one_evaluation : forall low_s tap_tweak_ok sha256 c control program script m stack ed f,
-  (forall x, length (sha256 x) = 32%nat) -> length control = (33 + 32 * m)%nat -> (c_sigver c =? SV_BASE) = false -> script <> [] ->
+  (forall x, length (sha256 x) = 32%nat) -> length control = (33 + 32 * m)%nat -> (c_sigver c =? SV_BASE) = false ->
   let t0 := tce_new sha256 control program script in
   let v0 := setup_env c script stack [] ed (Some t0) in
   let e_run := set_ed (i_e v0) (ed_set_tapleaf (e_ed (i_e v0)) (spec_leaf sha256 control script)) in
